@@ -4,6 +4,7 @@ import (
 	"fmt"
 	"io"
 	"os"
+	"path/filepath"
 )
 
 func tryRenameFile(from string, to string) error {
@@ -17,6 +18,16 @@ func tryRenameFile(from string, to string) error {
 		log.Debugf("Error renaming from %v to %v, attempting to copy contents", from, to)
 		log.Debug(renameError.Error())
 		log.Debug("going to try copying instead")
+		// the temp file is usually on another file system: stage a copy next to the target
+		// and rename that, so that a failure (or a crash) while copying cannot leave the
+		// target truncated
+		staged, stagingError := stageAndRename(from, to)
+		if stagingError != nil {
+			return fmt.Errorf("failed copying from %v to %v: %w", from, to, stagingError)
+		} else if staged {
+			tryRemoveTempFile(from)
+			return nil
+		}
 		// can't do this rename when running in docker to a file targeted in a mounted volume,
 		// so gracefully degrade to copying the entire contents.
 		if copyError := copyFileContents(from, to); copyError != nil {
@@ -31,6 +42,40 @@ func tryRenameFile(from string, to string) error {
 		return err
 	}
 	return nil
+}
+
+// copies `from` into a new file in the directory of `to`, gives it the mode of `from`
+// and renames it over `to`. Returns (true, nil) when that worked, (false, nil) when this
+// route is not available (no file can be created next to the target, or it cannot be
+// renamed over the target, e.g. a bind mounted file) and (false, err) when copying
+// failed. Nothing is left behind and `to` is untouched unless it returns true.
+func stageAndRename(from string, to string) (bool, error) {
+	info, err := os.Stat(from)
+	if err != nil {
+		return false, nil
+	}
+	staged, err := os.CreateTemp(filepath.Dir(to), ".yq-inplace-")
+	if err != nil {
+		return false, nil
+	}
+	stagedName := staged.Name()
+	if err := copyFileContents(from, stagedName); err != nil {
+		safelyCloseFile(staged)
+		_ = os.Remove(stagedName)
+		return false, err
+	}
+	if err := os.Chmod(stagedName, info.Mode()); err != nil {
+		safelyCloseFile(staged)
+		_ = os.Remove(stagedName)
+		return false, nil
+	}
+	_ = changeOwner(info, staged)
+	safelyCloseFile(staged)
+	if err := os.Rename(stagedName, to); err != nil {
+		_ = os.Remove(stagedName)
+		return false, nil
+	}
+	return true, nil
 }
 
 func tryRemoveTempFile(filename string) {
